@@ -71,7 +71,8 @@ int rfc1035QueryUnpack(const char *buf, size_t sz, unsigned int *off, rfc1035_qu
                      "QueryUnpack requires: buf, off, query are separate objects");
     unsigned int off0 = *off;
     *off = cv_nondet_uint();
-    __CPROVER_havoc_slice(query, sizeof(*query));
+    rfc1035_query anyq;                   /* uninitialised local = arbitrary value (cheaper than a byte-wise havoc) */
+    *query = anyq;
     int r = cv_nondet_int();
     __CPROVER_assume(spec_query_post(buf, sz, off0, *off, r, query, cv_nondet_size()));
     return r;
@@ -88,7 +89,8 @@ int rfc1035RRUnpack(const char *buf, size_t sz, unsigned int *off, rfc1035_rr *R
                      "RRUnpack requires: buf, off, RR are separate objects");
     unsigned int off0 = *off;
     *off = cv_nondet_uint();
-    __CPROVER_havoc_slice(RR, sizeof(*RR));
+    rfc1035_rr anyrr;                     /* uninitialised local = arbitrary value (cheaper than a byte-wise havoc) */
+    *RR = anyrr;
     int r = cv_nondet_int();
     if (r == 0) {
         size_t n = cv_nondet_size();
